@@ -405,3 +405,55 @@ Definition eval_arith (s : string) : option Z :=
   | Some (v, rest) => match skip_ws rest with EmptyString => Some v | _ => None end
   | None => None
   end.
+
+(* ------------------------------------------------------------------ fragment expressions (for the statements) *)
+(* e ::= n | roll | -e | +e | (e) | e+e | e-e | e*e, printed with arbitrary white space; a roll is printed as
+   its value (what stripping the annotations leaves).  `prec_ok` says the tree is the one the text denotes
+   (operands of * are not sums, right operands are not left-nested). *)
+Inductive binop := OAdd | OSub | OMul.
+Inductive aexp :=
+| ANum (n : N)
+| ARoll (v : Z)
+| ANeg (ws : string) (e : aexp)
+| APos (ws : string) (e : aexp)
+| AParen (ws1 : string) (e : aexp) (ws2 : string)
+| ABin (op : binop) (l : aexp) (ws1 ws2 : string) (r : aexp).
+
+Definition op_text (o : binop) : string := match o with OAdd => "+" | OSub => "-" | OMul => "*" end.
+Fixpoint aprint (e : aexp) : string :=
+  match e with
+  | ANum n => show_N n
+  | ARoll v => show_Z v
+  | ANeg ws e => "-" ++ ws ++ aprint e
+  | APos ws e => "+" ++ ws ++ aprint e
+  | AParen ws1 e ws2 => "(" ++ ws1 ++ aprint e ++ ws2 ++ ")"
+  | ABin o l ws1 ws2 r => aprint l ++ ws1 ++ op_text o ++ ws2 ++ aprint r
+  end.
+Fixpoint avalue (e : aexp) : Z :=
+  match e with
+  | ANum n => Z.of_N n
+  | ARoll v => v
+  | ANeg _ e => (- avalue e)%Z
+  | APos _ e => avalue e
+  | AParen _ e _ => avalue e
+  | ABin OAdd l _ _ r => (avalue l + avalue r)%Z
+  | ABin OSub l _ _ r => (avalue l - avalue r)%Z
+  | ABin OMul l _ _ r => (avalue l * avalue r)%Z
+  end.
+(* binding level: 0 = sum, 1 = product, 2 = signed atom *)
+Definition alevel (e : aexp) : nat :=
+  match e with
+  | ABin OMul _ _ _ _ => 1
+  | ABin _ _ _ _ _ => 0
+  | _ => 2
+  end.
+Fixpoint all_ws (s : string) : bool :=
+  match s with EmptyString => true | String c r => is_ws c && all_ws r end.
+Fixpoint prec_ok (e : aexp) : bool :=
+  match e with
+  | ANum _ | ARoll _ => true
+  | ANeg ws e | APos ws e => all_ws ws && Nat.leb 2 (alevel e) && prec_ok e
+  | AParen ws1 e ws2 => all_ws ws1 && all_ws ws2 && prec_ok e
+  | ABin OMul l ws1 ws2 r => all_ws ws1 && all_ws ws2 && Nat.leb 1 (alevel l) && Nat.leb 2 (alevel r) && prec_ok l && prec_ok r
+  | ABin _ l ws1 ws2 r => all_ws ws1 && all_ws ws2 && Nat.leb 1 (alevel r) && prec_ok l && prec_ok r
+  end.
